@@ -17,7 +17,8 @@ Record cobs := mk_cobs {
   ob_ms : N;
   ob_lt : amap summary;             (* listtowers ([] when not alive) *)
   ob_db : db;                       (* the seven tables read in one transaction (8th table left empty) *)
-  ob_log : list logent }.           (* requests the towers saw since the previous observation *)
+  ob_log : list logent;             (* requests the towers saw since the previous observation *)
+  ob_van : list (N * N * N) }.      (* database sampler: (tower, locator, ms) of a pair that HAD a record and was sampled with none, tower row present *)
 
 Record cstep := mk_cstep { ss_kind : N; ss_a : N; ss_b : N; ss_res : N; ss_dur : N; ss_obs : cobs }.
 
@@ -47,12 +48,16 @@ Definition lt_status (o : cobs) (t : N) : option tower_status :=
 Fixpoint index_from {A} (i : N) (l : list A) : list (N * A) :=
   match l with [] => [] | x :: r => (i, x) :: index_from (i + 1) r end.
 
-Definition empty_cobs : cobs := {| ob_alive := false; ob_ms := 0; ob_lt := []; ob_db := db_empty CS; ob_log := [] |}.
+Definition empty_cobs : cobs := {| ob_alive := false; ob_ms := 0; ob_lt := []; ob_db := db_empty CS; ob_log := []; ob_van := [] |}.
 
 (* ================= C05 ================= *)
 (* 501: a (tower, locator) the client owes a record for has none;  502: at a settle point it has more than one
-   (two are tolerated after a KILL as long as one of them is the pending row: the interrupted move). *)
-Record m05 := mk_m05 { m5_due : list (N * N); m5_prev : cobs; m5_killed : bool; m5_out : list viol }.
+   (two are tolerated after a KILL as long as one of them is the pending row: the interrupted move);
+   503: the database sampler caught an INTERMEDIATE durable state in which a pair that had a record has none (the model says
+   this never happens: C05_recorded_at_least_one_at_crash).
+   A notification sent without waiting for its completion (REVNOWAIT) is owed a record from the next settle point on (the
+   handler has completed by then), for the towers registered when it was sent; a KILL in between cancels it. *)
+Record m05 := mk_m05 { m5_due : list (N * N); m5_prev : cobs; m5_killed : bool; m5_nowait : list (N * list N); m5_out : list viol }.
 
 Definition c05_step (last : N) (m : m05) (ist : N * cstep) : m05 :=
   let (i, st) := ist in
@@ -67,6 +72,15 @@ Definition c05_step (last : N) (m : m05) (ist : N * cstep) : m05 :=
     else m5_due m in
   let killed := m5_killed m || N.eqb k K_KILL in
   let settle := is_settle_step st || N.eqb i last in
+  let nowait0 := if N.eqb k K_KILL then []
+                 else if N.eqb k K_REVNOWAIT then m5_nowait m ++ [(ss_a st, db_towers (ob_db (m5_prev m)))]
+                 else if N.eqb k K_ABANDON then map (fun lt => (fst lt, filter (fun t => negb (N.eqb t (ss_a st))) (snd lt))) (m5_nowait m)
+                 else m5_nowait m in
+  let due1 := if is_settle_step st && ob_alive o then
+                fold_left (fun acc lt => fold_left (fun acc2 t => if memN t (db_towers d) then due_add acc2 (t, fst lt) else acc2) (snd lt) acc) nowait0 due1
+              else due1 in
+  let nowait1 := if is_settle_step st && ob_alive o then [] else nowait0 in
+  let v_van := map (fun v => (503, i, fst (fst v), snd (fst v))) (ob_van o) in
   let check (p : N * N) : list viol :=
     let (t, l) := p in
     if has_proof d t then [] else
@@ -74,12 +88,12 @@ Definition c05_step (last : N) (m : m05) (ist : N * cstep) : m05 :=
     if Nat.eqb n 0 then [(501, i, t, l)]
     else if settle && negb (Nat.eqb n 1) && negb (killed && has_pending_row d t l) then [(502, i, t, l)]
     else [] in
-  {| m5_due := due1; m5_prev := o; m5_killed := killed; m5_out := m5_out m ++ flat_map check due1 |}.
+  {| m5_due := due1; m5_prev := o; m5_killed := killed; m5_nowait := nowait1; m5_out := m5_out m ++ flat_map check due1 ++ v_van |}.
 
 Definition mon_c05 (sc : scen) : list viol :=
   let steps := index_from 0 (sc_steps sc) in
   let last := N.of_nat (length steps) - 1 in
-  m5_out (fold_left (c05_step last) steps {| m5_due := []; m5_prev := empty_cobs; m5_killed := false; m5_out := [] |}).
+  m5_out (fold_left (c05_step last) steps {| m5_due := []; m5_prev := empty_cobs; m5_killed := false; m5_nowait := []; m5_out := [] |}).
 
 (* ================= C14 ================= *)
 (* 1401 a registration was stored that must not be; 1402 one that must be stored was not (or the RPC's answer
@@ -252,7 +266,7 @@ Definition towers_upto (n : N) : list N := map fst (index_from 0 (repeat tt (N.t
 (* tower script state, per tower: (up, add class, register class) and since when (ms) it has been accepting / failing hard *)
 Record tw := mk_tw { tw_up : bool; tw_add : N; tw_reg : N; tw_acc : option N; tw_bad : option N }.
 Definition hard_fail_class (c : N) : bool :=
-  N.eqb c A_BADSIG || N.leb 5 c.     (* undecodable signature, garbage, wrong shape, empty, huge, reset, wrong types *)
+  N.eqb c A_BADSIG || (N.leb 5 c && N.leb c 10).     (* undecodable signature, garbage, wrong shape, empty, huge, reset, wrong types (11 = a held acceptance) *)
 Definition tw_accepting (w : tw) : bool := tw_up w && N.eqb (tw_add w) A_ACCEPT && N.eqb (tw_reg w) R_GOOD.
 (* the tower answers add_appointment with `subscription error` and its register endpoint fails TRANSIENTLY (garbage, API
    error): a retry loop can neither renew nor deliver, it must give up like against a tower that is down *)
